@@ -143,7 +143,45 @@ class Class:
         return 0
 
 
+class XPackage:
+    """user class that keeps, next to the grammar's attributes, an attribute of its own holding other model objects (a plain Python
+    relation such as 'friends' / 'bases'); it is also callable"""
+
+    def __init__(self, **kw):
+        self.__dict__.update(kw)
+        self.friends = [kw["link"]] if kw.get("link") is not None else []
+
+    def __call__(self):
+        return self.name
+
+
+class XClass:
+    def __init__(self, **kw):
+        self.__dict__.update(kw)
+        self.friends = [kw["link"]] if kw.get("link") is not None else []
+
+    def __call__(self):
+        return self.name
+
+
+XPackage.__name__, XClass.__name__ = "Package", "Class"
+
+
 def world(user=False):
+    if user == "extra":
+        if "mm-extra" not in _S:
+            from textx import metamodel_from_str, get_model, get_children
+            from textx.scoping.providers import FQN
+
+            mmx = metamodel_from_str(GRAMMAR, classes=[XPackage, XClass])
+
+            def by_uid_x(obj, attr, obj_ref):
+                uid = int(obj_ref.obj_name)
+                r = get_children(lambda x: getattr(x, "uid", None) == uid, get_model(obj))
+                return r[0] if r else None
+            mmx.register_scope_providers({"*.t": FQN(), "*.link": by_uid_x})
+            _S["mm-extra"] = mmx
+        return _S["mm-extra"]
     if user:
         if "mm-user" not in _S:
             from textx import metamodel_from_str, get_model, get_children
@@ -234,12 +272,18 @@ def work(arg):
                                 ok, obs = run_case(f, link, site, parts, target, True)
                             obs["user_classes_with_len"] = True
                             cid = cid + ["falsy user classes"]
+                        elif ok and link is not None and len(nodes) <= 3:
+                            # user classes that keep the linked object once more in an attribute the grammar does not know
+                            with watchdog(10):
+                                ok, obs = run_case(f, link, site, parts, target, "extra")
+                            obs["user_classes_with_len"] = "extra"
+                            cid = cid + ["user classes with an own attribute"]
                         u.case(cid, nontrivial=True, sample=obs if link and len(parts) > 1 and obs["expected_path"] else None)
                         u.count("expected:" + ("resolve" if obs["expected_path"] is not None else "unknown"))
                         if not ok:
                             key = classify(f, link, site, parts, target, obs)
                             u.fail(cid, {"forest": f, "link": link, "site": site, "parts": parts, "target": target, "user": obs.get("user_classes_with_len", False)}, key=key,
-                                   sig="falsy user classes" if obs.get("user_classes_with_len") else None,
+                                   sig=("user classes %s" % obs.get("user_classes_with_len")) if obs.get("user_classes_with_len") else None,
                                    what="%s expected %s observed %s" % (obs["text"], obs.get("expected_uid", obs["expected_path"]), obs["observed"]))
     return u
 
@@ -250,6 +294,74 @@ def classify(f, link, site, parts, target, obs):
 
 def tup(x):
     return tuple(tup(i) for i in x) if isinstance(x, (list, tuple)) else x
+
+
+# ---- history family: the name leads into a FINISHED model (loaded earlier, kept by the global repository) ---------------
+FIN_GRAMMAR = GRAMMAR.replace("Model: (", "Model: imports*=Import (").replace("Named: Package | Class;", "Named: Package | Class;\nImport: 'import' importURI=STRING;")
+
+
+def run_finished(f, link, parts, target):
+    """lib.m (forest with a link, user classes that keep the linked object in an attribute of their own) is loaded first; then main.m imports it and
+    refers into it: objects of a finished model are plain Python objects, the provider must still follow containment only"""
+    import os
+
+    from mc import core
+    from textx import get_children, get_model, metamodel_from_str
+    from textx.exceptions import TextXSemanticError
+    from textx.scoping.providers import FQNImportURI
+
+    assert "imports*=Import" in FIN_GRAMMAR and "Import:" in FIN_GRAMMAR
+    mm = metamodel_from_str(FIN_GRAMMAR, classes=[XPackage, XClass], global_repository=True)
+
+    def by_uid(obj, attr, obj_ref):
+        uid = int(obj_ref.obj_name)
+        r = get_children(lambda x: getattr(x, "uid", None) == uid, get_model(obj))
+        return r[0] if r else None
+    mm.register_scope_providers({"*.t": FQNImportURI(), "*.link": by_uid})
+    d = os.path.join(core.rundir(), "c10fin-%d" % os.getpid())
+    os.makedirs(d, exist_ok=True)
+    ids = {p: i + 1 for i, (p, k, n) in enumerate(flatten(f))}
+    lib_text = render(f, ids, link, None, "")
+    with open(os.path.join(d, "lib.m"), "w") as fh:
+        fh.write(lib_text)
+    reftext = {"Class": "rc", "Package": "rp", "Named": "rn"}[target] + " " + ".".join(parts)
+    with open(os.path.join(d, "main.m"), "w") as fh:
+        fh.write('import "lib.m" ' + reftext)
+    exp = expected(f, (), parts, target)
+    obs = {"lib.m": lib_text, "main.m": 'import "lib.m" ' + reftext, "expected_path": exp, "history": "lib.m loaded first (global repository)"}
+    try:
+        lib = mm.model_from_file(os.path.join(d, "lib.m"))
+        m = mm.model_from_file(os.path.join(d, "main.m"))
+    except TextXSemanticError as e:
+        obs["observed"] = "error: " + e.message
+        return exp is None and e.err_type == "Unknown object", obs
+    except Exception as e:
+        obs["observed"] = "%s: %s" % (type(e).__name__, e)
+        return False, obs
+    got = m.refs[0].t
+    obs["observed"] = "uid %s" % getattr(got, "uid", got)
+    if exp is None:
+        return False, obs
+    return got is obj_at(lib, exp), obs
+
+
+def work_finished(arg):
+    u = Unit()
+    texts = [p for n in (1, 2, 3) for p in itertools.product(NAMES, repeat=n)]
+    for f in arg:
+        nodes = list(flatten(f))
+        for link in [None] + [(a[0], b[0]) for a in nodes for b in nodes]:
+            for parts in texts:
+                for target in ("Class", "Package", "Named"):
+                    cid = ["finished-model", f, link, parts, target]
+                    with watchdog(10):
+                        ok, obs = run_finished(f, link, parts, target)
+                    u.case(cid, nontrivial=True, sample=obs if link and len(parts) > 1 and obs["expected_path"] else None)
+                    u.count("finished-model expected:" + ("resolve" if obs["expected_path"] is not None else "unknown"))
+                    if not ok:
+                        u.fail(cid, {"finished": True, "forest": f, "link": link, "parts": parts, "target": target}, sig="finished-model",
+                               what="lib.m=%r main.m=%r expected %s observed %s" % (obs["lib.m"], obs["main.m"], obs["expected_path"], obs["observed"]))
+    return u
 
 
 def run(ctx):
@@ -265,7 +377,10 @@ def run(ctx):
         B = 2 if wl and n >= 4 else 8
         units += [(fs[i:i + B], wl) for i in range(0, len(fs), B)]
     ctx.pmap(work, units)
+    fin = [f for n in ((1, 2) if ctx.tier == "quick" else (1, 2, 3)) for f in trees(n)]
+    ctx.pmap(work_finished, [fin[i:i + 2] for i in range(0, len(fin), 2)])
     return {
+        "finished_model_family": "forests up to %d nodes x every link x every dotted name x target type: lib.m loaded first with a global repository, main.m importing it refers into the finished model" % (2 if ctx.tier == "quick" else 3),
         "rule": "case = (forest, optional link src->dst, container holding the referencing object, dotted name, target type); "
                 "plan (nodes, all links?) = %s; every case is a distinct load" % plan,
         "exhaustive": True, "forests": nf,
@@ -276,4 +391,6 @@ def run(ctx):
 
 def replay(p):
     link = tup(p["link"]) if p["link"] else None
+    if p.get("finished"):
+        return run_finished(tup(p["forest"]), link, tup(p["parts"]), p["target"])
     return run_case(tup(p["forest"]), link, tup(p["site"]), tup(p["parts"]), p["target"], p.get("user", False))
